@@ -257,6 +257,19 @@ func wiringToMultiAlign(c *core.Ctx, rule string) {
 			}
 		}
 	}
+	// --pad keeps the full reference width, so a --wrap between the window width and the reference length still wraps
+	for _, win := range [][2]int64{{3, 12}, {5, 9}, {-1, 11}} {
+		for _, wrap := range []int64{10, 12, 29} {
+			s, e := win[0], win[1]
+			if s == -1 {
+				s = 1
+			}
+			scs = append(scs, wireScenario{label: fmt.Sprintf("wrap=%d start=%d end=%d pad=true threads=1", wrap, win[0], win[1]), numCPU: 2,
+				args: []eval.Value{wr("reader:sam"), wr("writer:out"), eval.K(wrap), eval.K(win[0]), eval.K(win[1]), true, eval.K(1)},
+				want: []string{"sam.groupSamRecords(reader:sam, chan, chan, chan, chan)", "fastaio.WriteWrapAlignment(chan, writer:out, " + fmtI(wrap) + ", chan, chan)",
+					"sam.blockToFastaRecord(chan, chan, chan, 30, true, true, " + fmtI(s) + ", " + fmtI(e) + ", false)"}})
+		}
+	}
 	for _, win := range [][2]int64{{0, 5}, {7, 3}, {1, 31}, {31, -1}} {
 		scs = append(scs, wireScenario{label: fmt.Sprintf("window %d..%d on a 30-base reference", win[0], win[1]), numCPU: 2, wantErr: true,
 			args: []eval.Value{wr("reader:sam"), wr("writer:out"), eval.K(-1), eval.K(win[0]), eval.K(win[1]), false, eval.K(1)}})
